@@ -88,6 +88,9 @@ def align(src, out, scopes=None):
             if a.value != b.value:
                 return ('token', 'token %d: string %r became %r' % (i, a.raw[:40], b.raw[:40]), prev), pairs, {}
         else:
+            if (a.raw == b'?') != (b.raw == b'?'):
+                # `?` is the print shorthand, a line-scoped construct of its own, not an identifier that could be renamed
+                return ('token', 'token %d: %r became %r' % (i, a.raw[:30], b.raw[:30]), prev), pairs, {}
             pairs.append((a.raw, b.raw))
     if len(sin) != len(sout):
         i = n
